@@ -98,7 +98,7 @@ def _shard(job):
                     bad = ("verdict", f"PyTree[{lname}] answered {got!r}, reference allows {sorted(map(str, allowed))}")
                 elif got is True and len(allowed) == 1:
                     want = (tuple(sorted(rnew[0].items())), tuple(sorted((k, ex, sh) for k, (ex, sh) in rnew[1].items())))
-                    if after[:2] != want or after[2] != before[2]:
+                    if not adapter.same_bindings(after, want) or after[2] != before[2]:
                         bad = ("bindings", f"accepted, context became {after}, reference {want}")
                 elif got is not True and after != before:
                     bad = ("rollback", f"verdict {got!r} but context changed {before} -> {after}")
